@@ -13,23 +13,37 @@ import (
 // Collector stores events in arrival order (arrival order = order of the per-process sequence number
 // for events emitted under one lock; cross-lock order is by the atomic counter "i").
 type Collector struct {
-	mu   sync.Mutex
-	cond *sync.Cond
-	recs []verifhook.Record
+	mu        sync.Mutex
+	cond      *sync.Cond
+	recs      []verifhook.Record
+	sessStart map[string]int // "node|session label" -> index of the latest sess_start event
 }
 
 // Install creates a collector and installs it as the verifhook sink.
 func Install() *Collector {
-	c := &Collector{}
+	c := &Collector{sessStart: map[string]int{}}
 	c.cond = sync.NewCond(&c.mu)
 	verifhook.SetSink(func(r verifhook.Record) {
 		c.mu.Lock()
+		if r["ev"] == "sess_start" {
+			n, _ := r["n"].(string)
+			s, _ := r["sess"].(string)
+			c.sessStart[n+"|"+s] = len(c.recs)
+		}
 		c.recs = append(c.recs, r)
 		c.cond.Broadcast()
 		c.mu.Unlock()
 	})
 
 	return c
+}
+
+// SessStart returns the index of the latest sess_start event of the given node instance and session label (0 if none).
+func (c *Collector) SessStart(node, sess string) int {
+	c.mu.Lock()
+	defer c.mu.Unlock()
+
+	return c.sessStart[node+"|"+sess]
 }
 
 // Len returns the number of events so far.
